@@ -1,6 +1,6 @@
 """C12 - synchronous FIFOs refine a bounded queue for every strobe sequence.
 
-Three streams, all against the native driver `amodel_c12` (Model/SyncFifo.lean + Spec/Queue.lean):
+Four streams, all against the native driver `amodel_c12` (Model/SyncFifo.lean + Spec/Queue.lean):
 
 1. walks      real SyncFIFO / SyncFIFOBuffered in amaranth's simulator, seeded strobe processes; every
               output in every cycle is compared with the model (`syncfifo` request: the tie) and the
@@ -9,6 +9,9 @@ Three streams, all against the native driver `amodel_c12` (Model/SyncFifo.lean +
               reachable register+storage state x every input, outputs and successor state against the
               model's `fstep`, every reachable state against the Lean invariant.
 3. malformed  constructor arguments: rejected ones against `constructorAccepts`, accepted ones must elaborate.
+4. reruns     walks repeated on the SAME objects: one Simulator run, `Simulator.reset()`, run again; the design
+              elaborated once and that Fragment simulated in several Simulators; both combined.  Every run starts
+              from the FIFO's reset state and is compared with the model and judged by the Spec monitor like a walk.
 
 impl != spec on a concrete input  -> chk.violation (replay = class, width, depth, input sequence from reset)
 impl == spec but impl != model    -> chk.not_shown
@@ -83,6 +86,61 @@ def sim_walk(job):
         sim.run()
         return obs
     except Exception as e:  # a valid configuration must simulate; reported by the caller
+        return ("error", common.errkind(e), str(e)[:200])
+
+
+ROUTES = {
+    "reset": "ONE Simulator: run, Simulator.reset(), run again",
+    "refrag": "the design elaborated ONCE (Fragment.get); that Fragment object simulated in a new Simulator per run",
+    "refrag+reset": "the design elaborated ONCE; per Simulator on that Fragment: run, Simulator.reset(), run again",
+}
+
+
+def sim_rerun(job):
+    """job = (cls_name, width, depth, route, [inputs of run 1, inputs of run 2, ...]); every run starts from the reset
+    state of the FIFO, reached by the route -> [outputs of run 1, outputs of run 2, ...] or ('error', kind, msg)"""
+    cls_name, width, depth, route, segments = job
+    try:
+        from amaranth.hdl import Period
+        from amaranth.sim import Simulator
+        f, frag, _regs, _mems = _build(cls_name, width, depth)
+        out = [[] for _ in segments]
+        cur = {"k": 0}
+
+        async def tb(ctx):
+            k = cur["k"]
+            for (w_en, w_data, r_en) in segments[k]:
+                ctx.set(f.w_en, w_en)
+                ctx.set(f.w_data, w_data)
+                ctx.set(f.r_en, r_en)
+                out[k].append((ctx.get(f.w_rdy), ctx.get(f.w_level), ctx.get(f.r_rdy), ctx.get(f.r_data),
+                               ctx.get(f.r_level), ctx.get(f.level)))
+                await ctx.tick()
+
+        def new_sim():
+            sim = Simulator(frag)
+            sim.add_clock(Period(MHz=1))
+            sim.add_testbench(tb)
+            return sim
+
+        sim = None
+        for k in range(len(segments)):
+            cur["k"] = k
+            if route == "reset":
+                if sim is None:
+                    sim = new_sim()
+                else:
+                    sim.reset()
+            elif route == "refrag":
+                sim = new_sim()
+            else:                                  # refrag+reset: simulators 1, 1, 2, 2, ...
+                if k % 2 == 0:
+                    sim = new_sim()
+                else:
+                    sim.reset()
+            sim.run()
+        return out
+    except Exception as e:
         return ("error", common.errkind(e), str(e)[:200])
 
 
@@ -365,6 +423,102 @@ def stream_walks(chk, pool, reps, scale):
     return len(jobs)
 
 
+def judge_rerun(chk, job, seg_obs, resps, origin):
+    """every run of a re-run job against the model and the Spec monitor (each run starts from reset)"""
+    cls_name, width, depth, route, segments = job
+    base = {"class": cls_name, "width": width, "depth": depth, "origin": origin, "route": route, "route_means": ROUTES[route],
+            "segments": [list(map(list, sg)) for sg in segments], "input_format": "(w_en, w_data, r_en) per cycle"}
+    if isinstance(seg_obs, tuple):
+        chk.violation(f"{cls_name}(width={width}, depth={depth}) does not simulate on the route '{route}' ({ROUTES[route]}): "
+                      f"{seg_obs[1]}: {seg_obs[2]}", dict(base, error=list(seg_obs)))
+        return False
+    for k, (inputs, obs) in enumerate(zip(segments, seg_obs)):
+        model, spec, model_mon = parse_model(resps[2 * k])
+        if model_mon != "ok":
+            raise common.Infra(f"model trace rejected by the Spec monitor ({model_mon}) - theorem/driver mismatch")
+        if len(obs) != len(inputs):
+            chk.violation(f"{cls_name}(width={width}, depth={depth}), route '{route}': run #{k + 1} stops after {len(obs)} of "
+                          f"{len(inputs)} cycles", dict(base, run=k + 1, classes=[]))
+            return False
+        mon = parse_monitor(resps[2 * k + 1])
+        diff = next((t for t, (o, m) in enumerate(zip(obs, model)) if tuple(o) != tuple(m)), None)
+        if mon is not None:
+            t, cl = mon
+            extra = ""
+            if "r_data_is_oldest" in cl and t < len(model):
+                extra = f": r_data={obs[t][3]:#x}, the oldest unread entry is {model[t][3]:#x}"
+            chk.extra["failing_sequences"] = chk.extra.get("failing_sequences", 0) + 1
+            chk.violation(
+                f"{cls_name}(width={width}, depth={depth}), run #{k + 1} on the route '{route}' ({ROUTES[route]}): cycle {t} of the run "
+                f"violates {','.join(cl)}{extra}",
+                dict(base, run=k + 1, inputs=[list(x) for x in inputs[:t + 1]],
+                     observed=[dict(zip(OUT_NAMES, o)) for o in obs[:t + 1]][-6:], failing_cycle=t, clauses=cl, classes=[]))
+            return False
+        if diff is not None:
+            chk.not_shown(
+                f"{cls_name}(width={width}, depth={depth}), run #{k + 1} on the route '{route}': outputs differ from the model at cycle "
+                f"{diff} although the observed trace satisfies the Spec monitor",
+                dict(base, run=k + 1, impl=dict(zip(OUT_NAMES, obs[diff])), model=dict(zip(OUT_NAMES, model[diff]))))
+            return False
+    return True
+
+
+def stream_reruns(chk, pool, reps, scale):
+    """a share of the walks is run two or three times: on one Simulator with reset() in between, and on Simulators that
+    share one elaborated Fragment; every run is compared like a walk from reset"""
+    rng = chk.rng
+    jobs, meta = [], []
+    for _rep in range(reps):
+        for cls_name in CLASSES:
+            for depth in (0, 1, 2, 3, 4, 5, 8, 16):
+                for width in (1, 4, 9):
+                    for route in ROUTES:
+                        nseg = 2 if route == "reset" else rng.choice([2, 3]) if route == "refrag" else 4
+                        pats = [rng.choice(PATTERNS) for _ in range(nseg)]
+                        n = scale * (3 * depth + 24)
+                        segs = [gen_inputs(rng, pt, width, depth, n + rng.randint(0, 7)) for pt in pats]
+                        if rng.random() < 0.3:
+                            segs[1] = list(segs[0])             # the very same stimulus again
+                        jobs.append((cls_name, width, depth, route, segs))
+                        meta.append(pats)
+    results = list(pool.map(sim_rerun, jobs, chunksize=4))
+    reqs, index = [], []
+    for job, res in zip(jobs, results):
+        index.append(len(reqs))
+        if isinstance(res, tuple):
+            continue
+        for inputs, obs in zip(job[4], res):
+            reqs.append(req_run(job[0], job[1], job[2], inputs))
+            reqs.append(req_trace(job[0], job[1], job[2], inputs[:len(obs)], obs))
+    resps = chk.driver.ask(reqs)
+    for job, res, pats, at in zip(jobs, results, meta, index):
+        cls_name, width, depth, route, segs = job
+        judge_rerun(chk, job, res, resps[at:at + 2 * len(segs)], f"rerun:{route}:{'/'.join(pats)}")
+        chk.count(len(segs))
+        chk.hist("rerun_route", route)
+        chk.hist("rerun_runs_per_job", len(segs))
+        chk.hist("rerun_class", cls_name)
+        chk.hist("rerun_depth", depth)
+        if isinstance(res, tuple):
+            continue
+        later = 0
+        for k, (inputs, obs) in enumerate(zip(segs, res)):
+            if k == 0:
+                continue
+            # what a later run must get right: an entry written into the EMPTY queue (it lands in the row the read
+            # port already addresses) and read back; entries read back at all
+            pops = sum(1 for i, o in zip(inputs, obs) if i[2] and o[2])
+            wr_empty = sum(1 for i, o in zip(inputs, obs) if i[0] and o[0] and o[5] == 0)
+            chk.hist("events", "rerun_later_run_pops", pops)
+            chk.hist("events", "rerun_later_run_writes_into_empty_queue", wr_empty)
+            chk.hist("events", "rerun_later_run_cycles", len(obs))
+            later += pops
+        left = sum(1 for o in res[0][-1:] if o[5] > 0)
+        chk.hist("rerun_first_run_ends_with_entries_held", bool(left))
+        chk.distinct(("rerun", cls_name, width, depth, route, repr(segs)), nontrivial=depth > 0 and later > 0)
+    return len(jobs)
+
+
 def _fmt_state(st):
     return "(" + " ".join(str(x) for x in st[0]) + ") (" + " ".join(str(x) for x in st[1]) + ")"
 
@@ -487,21 +641,29 @@ def run(chk):
     with concurrent.futures.ProcessPoolExecutor(max_workers=workers) as pool:
         nw = stream_walks(chk, pool, reps, scale)
         ng = stream_graph(chk, pool, graph_cfg)
+        # drawn after the older streams, which therefore see the same inputs as before
+        nr = stream_reruns(chk, pool, 1 if quick else 4, scale)
     nm = stream_malformed(chk)
-    chk.extra["streams"] = {"walks": nw, "graph_configs": ng, "malformed": nm}
+    chk.extra["streams"] = {"walks": nw, "graph_configs": ng, "malformed": nm, "reruns": nr}
     chk.cov["rule"] = (
         "walks: every (class, depth in {0,1,2,3,4,5,7,8,16,33}, width in {0,1,4,9}, strobe pattern in "
         "{random,bursty,always_read,always_write,fill_drain,both}) x repetitions, 4*depth+100 cycles (x3 thorough) from reset; "
         "distinct = distinct (class,width,depth,input sequence), non-trivial = at least one accepted write and one accepted read "
         "(depth 0: counted, nothing can happen). graph: complete reachable (registers+storage) state graph x all inputs for the "
         "listed small configurations (coverage.exhaustive); a sample of transitions is counted as distinct. malformed: "
-        "constructor argument grid (negative, non-int).")
+        "constructor argument grid (negative, non-int). reruns: every (class, depth in {0,1,2,3,4,5,8,16}, width in {1,4,9}) on three "
+        "routes - one Simulator run twice with Simulator.reset() in between; the design elaborated once (Fragment.get) and that "
+        "Fragment simulated in 2-3 new Simulators; both combined (4 runs) - each run 3*depth+24.. cycles of a random strobe pattern "
+        "(30%: the same stimulus again), every run compared with the model and judged by the Spec monitor like a walk from reset; "
+        "distinct = (class,width,depth,route,inputs), non-trivial = a later run reads entries back.")
     chk.assumptions += [
         "one `step` of the model = one rising edge of `sync` with reset de-asserted; reset behaviour itself belongs to C03",
         "outputs are sampled by a testbench after setting the inputs and before the edge (ctx.get before ctx.tick)",
         "graph stream: a state forced with ctx.set on the named registers / memory rows is the state the design would be in "
         "(every such state was first *reached* by real transitions; the register set is checked against the fragment)",
         "w_data < 2^width (a Signal(width) cannot hold anything else)",
+        "reruns: Simulator.reset() and a new Simulator on an already elaborated Fragment both put the FIFO (registers and storage) "
+        "into the model's initial state; the first run of a job is not required to drain the queue",
     ]
 
 
@@ -509,6 +671,21 @@ def replay(chk, path):
     """re-run a recorded failing input: prints what the implementation, the model and the Spec monitor say"""
     rep = json.load(open(path))["replay"]
     chk.driver = common.Driver(EXE)
+    if "route" in rep:
+        segs = [[tuple(x) for x in sg] for sg in rep["segments"]]
+        job = (rep["class"], rep["width"], rep["depth"], rep["route"], segs)
+        res = sim_rerun(job)
+        if isinstance(res, tuple):
+            print("implementation:", res)
+            return common.EXIT_VIOLATION
+        bad = False
+        for k, (inputs, obs) in enumerate(zip(segs, res)):
+            r = chk.driver.ask([req_run(job[0], job[1], job[2], inputs), req_trace(job[0], job[1], job[2], inputs, obs)])
+            model, _spec, _ = parse_model(r[0])
+            same = all(tuple(o) == tuple(m) for o, m in zip(obs, model))
+            print(f"run #{k + 1} on the route '{rep['route']}': Spec monitor: {r[1]}; outputs {'=' if same else '!='} model")
+            bad = bad or not r[1].startswith("ok") or not same
+        return common.EXIT_VIOLATION if bad else common.EXIT_OK
     inputs = [tuple(x) for x in rep["inputs"]]
     job = (rep["class"], rep["width"], rep["depth"], inputs)
     obs = sim_walk(job)
